@@ -225,28 +225,26 @@ def uint8PadOnes (val pos : Nat) (out : Bytes) : M (Nat × Bytes) := do
 /-- middle stage: the size check and the tens digit -/
 def uint8PadTens (val minDigits pos : Nat) (out : Bytes) : M (Nat × Bytes) := do
   if out.length ≤ pos then return (0, out)
-  let d2 := val / 10
-  if d2 = 0 then
+  if val / 10 = 0 then
     if 2 ≤ minDigits then
       let o ← wr out pos 0x30
       uint8PadOnes val (pos + 1) o
     else uint8PadOnes val pos out
   else
-    let o ← wr out pos (UInt8.ofNat (0x30 + d2))
+    let o ← wr out pos (UInt8.ofNat (0x30 + val / 10))
     uint8PadOnes (val % 10) (pos + 1) o
 
 /-- `MHD_uint8_to_str_pad (val, min_digits, buf, buf_size)` (the straight-line code cut into
     its three stages: hundreds, tens, ones) -/
 def uint8ToStrPad (val minDigits : Nat) (out : Bytes) : M (Nat × Bytes) := do
   if out.length = 0 then return (0, out)
-  let d1 := val / 100
-  if d1 = 0 then
+  if val / 100 = 0 then
     if 3 ≤ minDigits then
       let o ← wr out 0 0x30
       uint8PadTens val minDigits 1 o
     else uint8PadTens val minDigits 0 out
   else
-    let o ← wr out 0 (UInt8.ofNat (0x30 + d1))
+    let o ← wr out 0 (UInt8.ofNat (0x30 + val / 100))
     uint8PadTens (val % 100) 2 1 o
 
 /-! ### hex -/
